@@ -61,8 +61,8 @@ def exc_origin(e):
         fn = fr.filename.replace('\\', '/')
         if '/optiland/' in fn:
             origin = 'library'
-        elif '/checks/' in fn or '/symopt/' in fn:
-            origin = 'harness'
+        elif '/checks/' in fn or '/symopt/harness.py' in fn:
+            origin = 'harness'   # (façade frames are neutral: the library called them)
     return origin
 
 
